@@ -77,6 +77,12 @@ fn run_bitops<R: BufRead + Clone>(mut r: rbsp::BitReader<R>, ops: &str, out: &mu
                     return;
                 }
             }
+        } else if op == "t8" {
+            num!(r.read_to::<u8>("x"));
+        } else if op == "t16" {
+            num!(r.read_to::<u16>("x"));
+        } else if op == "t32" {
+            num!(r.read_to::<u32>("x"));
         } else if let Some(rest) = op.strip_prefix("u8.") {
             num!(r.read::<u8>(rest.parse().unwrap(), "x"));
         } else if let Some(rest) = op.strip_prefix("u16.") {
@@ -286,6 +292,7 @@ fn cmd_refnal(args: &[&str], out: &mut Vec<String>) {
 fn cmd_accum(args: &[&str], out: &mut Vec<String>) {
     let frags = args.get(0).copied().unwrap_or("");
     let policy: Vec<u8> = args.get(1).copied().unwrap_or("").bytes().collect();
+    let read_size: usize = args.get(2).map(|s| s.parse().unwrap()).unwrap_or(3);
     let mut calls: Vec<String> = Vec::new();
     let mut k = 0usize;
     {
@@ -307,7 +314,19 @@ fn cmd_accum(args: &[&str], out: &mut Vec<String>) {
                 Ok(h) => format!("{}.{}", h.nal_ref_idc(), h.nal_unit_type().id()),
                 Err(_) => "err".to_string(),
             };
-            calls.push(format!("{};{};{};{}", hex(&bytes), nal.is_complete() as u8, end, hdr));
+            // the same NAL once more through Read::read with a scratch buffer of read_size bytes
+            let mut r2 = nal.reader();
+            let mut bytes2 = Vec::new();
+            let mut scratch = vec![0u8; read_size];
+            let end2 = loop {
+                match r2.read(&mut scratch) {
+                    Ok(0) => break "Eof".to_string(),
+                    Ok(k) => bytes2.extend_from_slice(&scratch[..k]),
+                    Err(e) => break iokind(&e),
+                }
+            };
+            let same = bytes2 == bytes && end2 == end;
+            calls.push(format!("{};{};{};{};{}", hex(&bytes), nal.is_complete() as u8, end, hdr, if same { "rd=same".to_string() } else { format!("rd={}!{}", hex(&bytes2), end2) }));
             let d = policy.get(k).copied().unwrap_or(b'B');
             k += 1;
             if d == b'I' {
